@@ -535,3 +535,181 @@ Proof.
   destruct (holes_fill nc gc (bb ++ [jof]) T HTN W (pcof st) (AH k) (AH k) (proj1 BKW) p ra Hin) as [Hin0 HN].
   destruct (HLW _ _ Hin0) as [_ [->|Hp]]; apply HN; apply in_or_app; [right; left; reflexivity|left; exact Hp].
 Qed.
+
+(* ---------- for loops without a loop variable ---------- *)
+Definition LOOPOK (S : N) (st st' : cstate) : Prop :=
+  csym st' = csym st /\ cbreaks st' = cbreaks st /\
+  exists new newc,
+    AOK new /\
+    ccode st' = ccode st ++ encode (strip new) /\
+    cconsts st' = cconsts st ++ newc /\
+    forall nc gc k, N.of_nat (List.length (cconsts st')) <= nc -> globals_below (csym st) gc ->
+      BOK nc gc new (pcof st) (AH (k + S)) (AH k) /\ holes nc gc new (pcof st) (AH (k + S)) = [].
+
+Definition range_op (rop : opc) (S : N) : Prop := (rop = StepRange /\ S = 3) \/ (rop = IterRange /\ S = 2).
+
+Lemma step_range_op nc gc rop S k : range_op rop S ->
+  jop_step nc gc (rop, 0) (AH (k + S)) = Some (AH (k + S + 1)) /\ jop_req (rop, 0) (AH (k + S)) = None /\
+  has_operand rop = true /\ is_jump rop = false.
+Proof.
+  intros [[-> ->]|[-> ->]]; unfold jop_step, jop_req; cbn [fst snd]; change (0 <? 65536) with true; cbn [negb].
+  - destruct (3 <=? k + 3) eqn:E; [|apply N.leb_gt in E; lia]. auto.
+  - destruct (2 <=? k + 2) eqn:E; [|apply N.leb_gt in E; lia]. auto.
+Qed.
+
+Lemma sop_ok_drop nc gc S k : S < 65536 -> sop_ok nc gc (Drop, S) (k + S) = Some k.
+Proof.
+  intro HS. unfold sop_ok. cbn [is_sl negb has_operand andb simple_effect].
+  destruct (S <? 65536) eqn:E; [|apply N.ltb_ge in E; lia]. cbn [negb].
+  destruct (k + S <? S) eqn:E1; [apply N.ltb_lt in E1; lia|]. f_equal. lia.
+Qed.
+
+Lemma for_loop_ok rop S b st st' : range_op rop S -> slist_ctl b ->
+  for_loop true None rop (Z.of_N S) b st = COk st' -> gsym (csym st) -> has_gb (csym st) -> LOOPOK S st st'.
+Proof.
+  intros HRO HB HC HG HGB.
+  assert (HS : S < 65536) by (destruct HRO as [[_ ->]|[_ ->]]; lia).
+  assert (HCb : for_loop true None rop (Z.of_N S) b st =
+    (emit true rop [0%Z] st >>= fun st2 =>
+     emit true JumpOnFalse [JumpPlaceholderZ] st2 >>= fun st3 =>
+     body_of true b (with_sym (st_push (csym st3)) (with_breaks [] st3)) >>= fun st4 =>
+     emit true Jump [pos_of st] (with_sym (st_pop (csym st4)) st4) >>= fun st5 =>
+     emit true Drop [Z.of_N S] st5 >>= fun st6 =>
+     patch true (pos_of st2) (pos_of st5) st6 >>= patch_all true (cbreaks st6) (pos_of st5) >>= fun st7 =>
+     COk (with_breaks (cbreaks st3) st7))).
+  { destruct b; cbn [for_loop for_declare for_assign bind body_of];
+      destruct (emit true rop [0%Z] st); cbn [bind]; try reflexivity;
+      destruct (emit true JumpOnFalse [JumpPlaceholderZ] c); cbn [bind]; reflexivity. }
+  rewrite HCb in HC. clear HCb.
+  destruct (emit true rop [0%Z] st) as [st2|] eqn:E1; [|discriminate]. cbn [bind] in HC.
+  destruct (emit true JumpOnFalse [JumpPlaceholderZ] st2) as [st3|] eqn:E2; [|discriminate]. cbn [bind] in HC.
+  destruct (body_of true b (with_sym (st_push (csym st3)) (with_breaks [] st3))) as [st4|] eqn:E3; [|discriminate]. cbn [bind] in HC.
+  destruct (emit true Jump [pos_of st] (with_sym (st_pop (csym st4)) st4)) as [st5|] eqn:E4; [|discriminate]. cbn [bind] in HC.
+  destruct (emit true Drop [Z.of_N S] st5) as [st6|] eqn:E5; [|discriminate]. cbn [bind] in HC.
+  destruct (patch true (pos_of st2) (pos_of st5) st6) as [st7|] eqn:E6; [|discriminate]. cbn [bind] in HC.
+  destruct (patch_all true (cbreaks st6) (pos_of st5) st7) as [st8|] eqn:E7; [|discriminate]. cbn [bind] in HC.
+  inversion HC; subst st'; clear HC.
+  destruct (step_range_op 0 0 rop S 0 HRO) as (_ & _ & HOr & HJr).
+  apply emit_enc1 in E1; [|exact HOr]. destruct E1 as [_ ->]. change (Z.to_N 0) with 0 in *.
+  apply emit_hole in E2; [|reflexivity]. subst st3. cbn [ccode cconsts csym cbreaks] in *.
+  assert (HG3 : gsym (st_push (csym st))) by (apply gsym_push; exact HG).
+  assert (HGB3 : has_gb (st_push (csym st))) by (apply has_gb_push; exact HGB).
+  pose proof (HB _ _ E3 HG3 HGB3) as (Sb & nb & cb & bb & Ab & Cb & Kb & Bb & NDb & Hb & Db).
+  unfold with_sym, with_breaks in Sb, Cb, Kb, Bb, Hb, Db. cbn [ccode cconsts csym cbreaks app] in Sb, Cb, Kb, Bb, Hb, Db.
+  apply emit_jump_to in E4. destruct E4 as [HRs ->]. unfold with_sym in E5, E6, E7. cbn [ccode cconsts csym cbreaks] in E5, E6, E7.
+  apply emit_enc1 in E5; [|reflexivity]. destruct E5 as [_ ->]. rewrite N2Z.id in *. cbn [ccode cconsts csym cbreaks] in E6, E7.
+  set (pc0 := pcof st) in *.
+  set (W0 := (false, (rop, 0)) :: (true, (JumpOnFalse, 9999)) :: (nb ++ [(false, (Jump, pc0))])).
+  set (W := W0 ++ [(false, (Drop, S))]).
+  assert (AW0 : AOK W0).
+  { unfold W0. constructor; [cbn; lia|]. constructor; [cbn; lia|]. apply aok_app; [exact Ab|].
+    constructor; [cbn; unfold pc0; rewrite pos_pcof in HRs; lia|constructor]. }
+  assert (AW : AOK W) by (unfold W; apply aok_app; [exact AW0|constructor; [cbn; exact HS|constructor]]).
+  set (jof := pc0 + 3). set (bstart := pc0 + 6).
+  assert (Pb : pcof {| ccode := (ccode st ++ enc1 (rop, 0)) ++ encode (strip [(true, (JumpOnFalse, 9999))]);
+                       cconsts := cconsts st; csym := st_push (csym st); cbreaks := [] |} = bstart).
+  { unfold pcof, bstart, pc0, pcof. cbn [ccode]. rewrite !app_length, !Nat2N.inj_add.
+    rewrite (aok_len [(true, (JumpOnFalse, 9999))]) by (constructor; [cbn; lia|constructor]).
+    replace (N.of_nat (List.length (enc1 (rop, 0)))) with 3.
+    - cbn [strip map snd]. rewrite total_len_cons. unfold total_len, ilen_of. simpl. lia.
+    - symmetry. pose proof (decode1_enc1' (rop, 0) [] ltac:(cbn; lia)) as [_ HL]. rewrite HL. unfold ilen_of. cbn [fst]. rewrite HOr. reflexivity. }
+  rewrite Pb in Hb, Db.
+  assert (TW0 : total_len (strip W0) = 3 + (3 + (total_len (strip nb) + 3))).
+  { unfold W0. rewrite !strip_cons, !total_len_cons, strip_app, total_len_app. unfold ilen_of. cbn [fst]. rewrite HOr.
+    change (total_len (strip [(false, (Jump, pc0))])) with (3 + 0). cbn [has_operand]. lia. }
+  assert (CW : ((ccode st4 ++ encode (strip [(false, (Jump, Z.to_N (pos_of st)))])) ++ enc1 (Drop, S)) = ccode st ++ encode (strip W)).
+  { rewrite Cb. unfold W, W0. rewrite pos_pcof, N2Z.id. fold pc0.
+    change ((false, (rop, 0)) :: (true, (JumpOnFalse, 9999)) :: nb ++ [(false, (Jump, pc0))])
+      with ([(false, (rop, 0))] ++ [(true, (JumpOnFalse, 9999))] ++ nb ++ [(false, (Jump, pc0))]).
+    rewrite !encode_strip_app. cbn [strip map snd]. rewrite !encode_one, <- !app_assoc. reflexivity. }
+  set (endp := pc0 + total_len (strip W0)).
+  (* BOK of the unpatched loop *)
+  assert (BW : forall nc gc k, N.of_nat (List.length (cconsts st4)) <= nc -> globals_below (csym st) gc ->
+            BOK nc gc W pc0 (AH (k + S)) (AH k) /\
+            In (endp, AH (k + S)) (jannot nc gc (strip W) pc0 (AH (k + S))) /\
+            forall p ra, In (p, ra) (holes nc gc W pc0 (AH (k + S))) -> ra = AH (k + S) /\ (p = jof \/ In p bb)).
+  { intros nc gc k Hnc HGl.
+    destruct (step_range_op nc gc rop S k HRO) as (ST1 & RQ1 & _ & _).
+    assert (BK1 : BOK nc gc [(false, (rop, 0))] pc0 (AH (k + S)) (AH (k + S + 1))).
+    { unfold BOK. cbn [strip map snd jruns jannot htgt]. rewrite ST1, RQ1. repeat split. }
+    assert (HH1 : holes nc gc [(false, (rop, 0))] pc0 (AH (k + S)) = []).
+    { cbn [holes]. rewrite ST1. reflexivity. }
+    destruct (bok_hole_jof nc gc jof (k + S)) as [BKj HHj].
+    assert (HGl3 : globals_below (st_push (csym st)) gc) by (apply globals_below_push; exact HGl).
+    destruct (Db nc gc (k + S) Hnc HGl3) as [BKb HLb].
+    assert (L1 : pc0 + total_len (strip [(false, (rop, 0))]) = jof).
+    { cbn [strip map snd]. rewrite total_len_cons. unfold total_len, ilen_of, jof. cbn [fst fold_right]. rewrite HOr. lia. }
+    assert (BK3 : BOK nc gc ([(false, (rop, 0))] ++ [(true, (JumpOnFalse, 9999))] ++ nb) pc0 (AH (k + S)) (AH (k + S))).
+    { eapply bok_app; [exact BK1|]. rewrite L1.
+      eapply bok_app; [exact BKj|]. cbn [strip map snd]. rewrite total_len_cons. unfold total_len at 1. simpl fold_right.
+      replace (jof + (ilen_of (JumpOnFalse, 9999) + 0)) with bstart by (unfold bstart, jof, ilen_of; simpl; lia). exact BKb. }
+    assert (HIN : In (pc0, AH (k + S)) (jannot nc gc (strip ([(false, (rop, 0))] ++ [(true, (JumpOnFalse, 9999))] ++ nb)) pc0 (AH (k + S)))).
+    { apply jannot_head. discriminate. }
+    destruct (bok_snoc_back nc gc _ pc0 (AH (k + S)) (k + S) pc0 BK3 HIN) as [BK4 HH4]; [unfold pc0; rewrite pos_pcof in HRs; lia|].
+    assert (BK4' : BOK nc gc W0 pc0 (AH (k + S)) (AH (k + S))) by exact BK4.
+    assert (HH4' : holes nc gc W0 pc0 (AH (k + S)) =
+                   holes nc gc ([(false, (rop, 0))] ++ [(true, (JumpOnFalse, 9999))] ++ nb) pc0 (AH (k + S))) by exact HH4.
+    clear BK4 HH4. rename BK4' into BK4. rename HH4' into HH4.
+    destruct (runs_bok nc gc [(Drop, S)] endp (k + S) k) as [BKd HHd].
+    { cbn [runs]. rewrite (sop_ok_drop nc gc S k HS). reflexivity. }
+    split; [|split].
+    - unfold W. eapply bok_app; [exact BK4|exact BKd].
+    - unfold W. rewrite strip_app, (jannot_app nc gc (strip W0) _ pc0 _ _ (proj1 BK4)).
+      apply in_or_app. right. fold endp. cbn [strip map snd jannot]. left. reflexivity.
+    - intros p ra Hin. unfold W in Hin. rewrite (holes_app nc gc W0 _ pc0 _ _ (proj1 BK4)) in Hin.
+      apply in_app_or in Hin. destruct Hin as [Hin|Hin];
+        [|exfalso; revert Hin; change (In (p, ra) (holes nc gc (solid [(Drop, S)]) endp (AH (k + S))) -> False); rewrite HHd; intros []].
+      rewrite HH4 in Hin.
+      rewrite (holes_app nc gc [(false, (rop, 0))] _ pc0 _ _ (proj1 BK1)), HH1, app_nil_l, L1 in Hin.
+      erewrite holes_app in Hin; [|exact (proj1 BKj)]. rewrite HHj in Hin. cbn [app] in Hin. destruct Hin as [Eq|Hin].
+      + inversion Eq; subst. split; [reflexivity|left; reflexivity].
+      + cbn [strip map snd] in Hin. rewrite total_len_cons in Hin. unfold total_len at 1 in Hin. simpl fold_right in Hin.
+        replace (jof + (ilen_of (JumpOnFalse, 9999) + 0)) with bstart in Hin by (unfold bstart, jof, ilen_of; simpl; lia).
+        destruct (HLb _ _ Hin). split; [assumption|right; assumption]. }
+  assert (HIL : ilen_of (rop, 0) = 3) by (unfold ilen_of; cbn [fst]; rewrite HOr; reflexivity).
+  assert (HJ : hole_at W pc0 jof).
+  { unfold W, W0. apply hole_at_app_l. cbn [hole_at]. right. rewrite HIL.
+    split; [unfold jof; lia|]. left. unfold jof. auto. }
+  assert (HBs : forall p, In p bb -> hole_at W pc0 p).
+  { intros p Hp. unfold W, W0. apply hole_at_app_l. pose proof (hole_at_range _ _ _ (Hb p Hp)) as HR.
+    cbn [hole_at]. right. rewrite !HIL. split; [unfold bstart in HR; lia|].
+    right. split; [unfold bstart in HR; lia|]. apply hole_at_app_l.
+    replace (pc0 + 3 + ilen_of (JumpOnFalse, 9999)) with bstart by (unfold bstart, ilen_of; simpl; lia).
+    apply Hb. exact Hp. }
+  destruct HGB as (gc0 & HG0).
+  destruct (BW (N.of_nat (List.length (cconsts st4))) gc0 0 (N.le_refl _) HG0) as [[RW _] _].
+  assert (EJ : pos_of {| ccode := ccode st ++ enc1 (rop, 0); cconsts := cconsts st; csym := csym st; cbreaks := cbreaks st |} = Z.of_N jof).
+  { rewrite pos_pcof. f_equal. unfold pcof, jof, pc0, pcof. cbn [ccode]. rewrite app_length, Nat2N.inj_add. f_equal.
+    pose proof (decode1_enc1' (rop, 0) [] ltac:(cbn; lia)) as [_ HL]. rewrite HL. unfold ilen_of. cbn [fst]. rewrite HOr. reflexivity. }
+  rewrite EJ in E6.
+  match type of E6 with patch _ _ ?T0 ?s0 = _ => set (TZ := T0) in *;
+    destruct (patch_fill _ _ jof TZ s0 st7 W (ccode st) (AH (0 + S)) (AH 0) CW RW HJ E6) as [HT ->] end.
+  cbn [cbreaks] in E7. rewrite Bb in E7. cbn [app] in E7.
+  set (T := Z.to_N TZ) in *.
+  assert (HTN : T < 65536) by (unfold T; lia).
+  destruct (fill_frame _ _ [jof] T HTN W pc0 (AH (0 + S)) (AH 0) RW) as (RW1 & _ & _).
+  eapply (patch_all_fill _ _ _ bb _ st8 (fill [jof] T W pc0) (ccode st) (AH (0 + S)) (AH 0) NDb) in E7;
+    [|reflexivity|exact RW1|].
+  2:{ intros p Hp. apply hole_at_fill_sel; [|apply HBs; exact Hp].
+      intros [<-|[]]. pose proof (hole_at_range _ _ _ (Hb _ Hp)). unfold bstart, jof in *. lia. }
+  destruct E7 as [_ ->]. rewrite fill_fill.
+  assert (ET : T = endp).
+  { unfold T, TZ. rewrite pos_pcof, N2Z.id. unfold pcof. cbn [ccode]. unfold endp.
+    assert (X : ccode st4 ++ encode (strip [(false, (Jump, Z.to_N (pos_of st)))]) = ccode st ++ encode (strip W0)).
+    { rewrite Cb. unfold W0. rewrite pos_pcof, N2Z.id. fold pc0.
+      change ((false, (rop, 0)) :: (true, (JumpOnFalse, 9999)) :: nb ++ [(false, (Jump, pc0))])
+        with ([(false, (rop, 0))] ++ [(true, (JumpOnFalse, 9999))] ++ nb ++ [(false, (Jump, pc0))]).
+      rewrite !encode_strip_app. cbn [strip map snd]. rewrite !encode_one, <- !app_assoc. reflexivity. }
+    rewrite X, app_length, Nat2N.inj_add, (aok_len W0 AW0). reflexivity. }
+  unfold LOOPOK. cbn [with_breaks ccode cconsts csym cbreaks]. fold pc0.
+  split; [rewrite Sb; apply pop_push_id; exact HG|]. split; [reflexivity|].
+  exists (fill (bb ++ [jof]) T W pc0), cb.
+  split; [apply aok_fill; assumption|]. split; [reflexivity|]. split; [exact Kb|].
+  intros nc gc k Hnc HGl. destruct (BW nc gc k Hnc HGl) as (BKW & HEND & HLW).
+  split.
+  - apply bok_fill; [exact HTN|exact BKW|]. intros p ra Hin _. right. destruct (HLW _ _ Hin) as [-> _]. rewrite ET. exact HEND.
+  - destruct (holes nc gc (fill (bb ++ [jof]) T W pc0) pc0 (AH (k + S))) as [|[p ra] r] eqn:EH; [reflexivity|exfalso].
+    assert (Hin : In (p, ra) (holes nc gc (fill (bb ++ [jof]) T W pc0) pc0 (AH (k + S)))) by (rewrite EH; left; reflexivity).
+    destruct (holes_fill nc gc (bb ++ [jof]) T HTN W pc0 _ _ (proj1 BKW) p ra Hin) as [Hin0 HN].
+    destruct (HLW _ _ Hin0) as [_ [->|Hp]]; apply HN; apply in_or_app; [right; left; reflexivity|left; exact Hp].
+Qed.
